@@ -39,21 +39,41 @@ def enc_int(n):
     return ['i', sign, limbs]
 
 
-def validate(rep, wd, module, events, label=None, cfg_extra='', timeout=3000, env=None, heap='8g'):
-    """events: list of dicts with an 'id'. Returns list of (id, clause). Raises on machinery failure."""
-    label = label or module
-    path = os.path.join(wd, label.replace('/', '_') + '.ndjson')
+CHUNK = 40000
+
+
+def _one(wd, module, events, label, cfg_extra, timeout, env, heap, k):
+    path = os.path.join(wd, '%s.%d.ndjson' % (label.replace('/', '_'), k))
     with open(path, 'w') as f:
         for e in events:
             f.write(json.dumps(e, sort_keys=True) + '\n')
     cfg = 'SPECIFICATION TraceSpec\nPOSTCONDITION TraceAccepted\nCHECK_DEADLOCK FALSE\n' + cfg_extra
     e2 = {'TRACE_FILE': path}
     e2.update(env or {})
-    r = tlc.run(module, cfg, wd, env=e2, workers=1, timeout=timeout, heap=heap)
-    rep.tlc(label, r)
-    rej = [(x[1], x[2]) for x in r.printed('REJECT')]
+    sub = os.path.join(wd, '%s-chunk%d' % (module, k))
+    os.makedirs(sub, exist_ok=True)
+    r = tlc.run(module, cfg, sub, env=e2, workers=1, timeout=timeout, heap=heap)
     consumed = r.distinct - 1
     if r.rc != 0 or consumed != len(events):
         raise tlc.TLCError('%s: rc=%s consumed %d of %d events\n%s' % (module, r.rc, consumed, len(events), r.out[-2500:]))
     os.remove(path)
+    return r
+
+
+def validate(rep, wd, module, events, label=None, cfg_extra='', timeout=3000, env=None, heap='8g', chunk=None):
+    """events: list of dicts with an 'id'. Returns list of (id, clause). Raises on machinery failure.
+    Trace specifications that judge every event on its own (all function-style ones) are validated in chunks by parallel
+    TLC processes when the trace is long; the split does not change any verdict."""
+    from concurrent.futures import ThreadPoolExecutor
+    label = label or module
+    ch = chunk or CHUNK
+    chunks = [events[i:i + ch] for i in range(0, len(events), ch)] or [[]]
+    if len(chunks) > 1:
+        heap = '6g'
+    with ThreadPoolExecutor(max_workers=6) as ex:
+        results = list(ex.map(lambda kc: _one(wd, module, kc[1], label, cfg_extra, timeout, env, heap, kc[0]), enumerate(chunks)))
+    rej = []
+    for k, r in enumerate(results):
+        rep.tlc(label if len(chunks) == 1 else '%s [chunk %d/%d]' % (label, k + 1, len(chunks)), r)
+        rej.extend((x[1], x[2]) for x in r.printed('REJECT'))
     return rej
